@@ -275,6 +275,41 @@ Proof.
         intros y Hy. cbn [det_remove t_mem] in Hy. apply remove_range_in in Hy. tauto. }
       { discriminate. }
 Qed.
+Lemma scan_pre_spec hs : forall errat d d1 r,
+  scan_pre e fnum fhash errat hs d = (d1, r) ->
+  (det_ok d -> det_ok d1) /\
+  (forall y, In y (t_mem d1) -> In y (t_mem d)) /\
+  (forall y, In y (t_mem d) -> ~ In y (t_mem d1) ->
+     exists x, In x hs /\ fst x = fst y /\ matches x /\ fst x <= fnum).
+Proof.
+  induction hs as [|x rest IH]; intros errat d d1 r Hscan.
+  - cbn [scan_pre] in Hscan. inversion Hscan; subst. split; [tauto|]. split; [tauto|]. intros y Hy Hn. contradiction.
+  - cbn [scan_pre] in Hscan.
+    set (cached := fst x =? fnum) in *.
+    set (fails := if cached then false else match errat with Some O => true | _ => false end) in *.
+    set (errat' := if cached then errat else match errat with Some (S k) => Some k | o => o end) in *.
+    assert (Hlk : (if cached then Some fhash else e_hdr e (fst x)) = lk (fst x)) by reflexivity.
+    rewrite Hlk in Hscan.
+    destruct fails.
+    { inversion Hscan; subst. split; [tauto|]. split; [tauto|]. intros y Hy Hn. contradiction. }
+    destruct (lk (fst x)) as [c|] eqn:Elk.
+    2:{ inversion Hscan; subst. split; [tauto|]. split; [tauto|]. intros y Hy Hn. contradiction. }
+    destruct (N.eqb_spec (snd x) c) as [Eh|Eh].
+    + assert (Hm : matches x) by (unfold matches; rewrite Elk, Eh; reflexivity).
+      destruct (N.leb_spec (fst x) fnum) as [Hf|Hf].
+      * specialize (IH _ _ _ _ Hscan) as (I1 & I2 & I3).
+        split; [intros Hd; apply I1, det_ok_remove, Hd|].
+        split; [intros y Hy; specialize (I2 y Hy); cbn [det_remove t_mem] in I2; apply remove_range_in in I2; tauto|].
+        intros y Hy Hn. destruct (N.eq_dec (fst y) (fst x)) as [E|E].
+        -- exists x. repeat split; [left; reflexivity|congruence|exact Hm|exact Hf].
+        -- assert (Hy' : In y (t_mem (det_remove (fst x) (fst x) d))).
+           { cbn [det_remove t_mem]. apply remove_range_in. split; [exact Hy|lia]. }
+           destruct (I3 y Hy' Hn) as (x' & Hx' & Hk & Hm' & Hf'). exists x'. repeat split; try assumption. right. exact Hx'.
+      * specialize (IH _ _ _ _ Hscan) as (I1 & I2 & I3).
+        split; [exact I1|]. split; [exact I2|].
+        intros y Hy Hn. destruct (I3 y Hy Hn) as (x' & Hx' & Hk & Hm' & Hf'). exists x'. repeat split; try assumption. right. exact Hx'.
+    + inversion Hscan; subst. split; [tauto|]. split; [tauto|]. intros y Hy Hn. contradiction.
+Qed.
 End Scan.
 
 (* keys of a sorted list are at most the last key *)
@@ -399,6 +434,22 @@ Proof.
   - intros b Hb y Hy. destruct (I4 b Hb) as (pre & x & post & Hsplit & Hx & _ & _ & Hrange).
     specialize (Hrange y Hy). pose proof (hsorted_le_last _ (proj1 Hd) y (I2 y Hy)) as Hle. lia.
   - intros Hr x Hx. rewrite (look_lk _ _ Ef). exact (I5 Hr x Hx).
+Qed.
+(* the tracked set at the moment the subscriber is notified: only headers that matched at or below the finalized block
+   have been removed *)
+Lemma detect_pre_effect d1 r : detect_pre e d = (d1, r) ->
+  det_ok d1 /\
+  (forall y, In y (t_mem d1) -> In y (t_mem d)) /\
+  (forall y, In y (t_mem d) -> ~ In y (t_mem d1) ->
+     look e (fst y) = Some (snd y) /\ exists fnum fhash, e_fin e = Some (fnum, fhash) /\ fst y <= fnum).
+Proof.
+  unfold detect_pre. destruct (e_fin e) as [[fnum fhash]|] eqn:Ef.
+  2:{ intros [= <- <-]. split; [exact Hd|]. split; [tauto|]. intros y Hy Hn. contradiction. }
+  intros Es. destruct (scan_pre_spec e fnum fhash _ _ _ _ _ Es) as (I1 & I2 & I3).
+  split; [apply I1, Hd|]. split; [exact I2|].
+  intros y Hy Hn. destruct (I3 y Hy Hn) as (x & Hx & Hk & Hm & Hf).
+  assert (x = y) by (apply (hsorted_unique _ (proj1 Hd)); assumption). subst x.
+  split; [rewrite (look_lk _ _ Ef); exact Hm|]. exists fnum, fhash. split; [reflexivity|exact Hf].
 Qed.
 End Tick.
 
@@ -983,13 +1034,29 @@ Proof.
     intros p Hp. apply Hkeep; [exact Hp|discriminate].
 Qed.
 
+(* the node is stopped while the subscriber is being notified: the tracked set is the one the notification was made
+   from (nothing at or above the reported block has been deleted), the store has not been rewound; then a start *)
+Lemma step_crash_notify r s ferr errat : SInv r s -> SInv r (do_crash_notify s ferr errat).
+Proof.
+  intros H. unfold do_crash_notify.
+  destruct (detect_pre (env_of (y_world s) ferr errat) (y_det s)) as [d1 res] eqn:Et. cbn [fst].
+  destruct (detect_pre_effect _ _ (i_det _ _ H) d1 res Et) as (Hd1 & Hsub & Hrem).
+  unfold do_restart. cbn [set_det y_world y_final y_store y_det y_rewinds].
+  destruct (det_ok_reload _ Hd1) as [_ He]. rewrite He.
+  apply (reset_inv r s d1 (y_store s) H Hd1); [apply (store_seq _ _ H)|tauto|].
+  intros p Hp. destruct (i_covers _ _ H p Hp) as [Ht|Hf]; [|right; exact Hf].
+  destruct (in_dec header_eq_dec (p_num p, p_hash p) (t_mem d1)) as [Hin|Hnin]; [left; exact Hin|right].
+  destruct (Hrem _ Ht Hnin) as [Hl Hfin].
+  apply (untracked_is_final s ferr errat (p_num p, p_hash p) (i_world _ _ H) Hl Hfin).
+Qed.
+
 (* ---- every step, every run ---- *)
 Definition polls_of (e : event) : nat := match e with EPoll _ => 1 | _ => 0 end.
 Fixpoint polls (es : list event) : nat := match es with [] => 0 | e :: t => polls_of e + polls t end.
 
 Lemma step_preserves r s e : SInv (polls_of e + r) s -> ev_ok s e -> SInv r (step cfg s e).
 Proof.
-  destruct e as [w|err| | |ferr errat| |]; cbn [polls_of Nat.add step]; intros H Hok.
+  destruct e as [w|err| | |ferr errat| | |ferr errat]; cbn [polls_of Nat.add step]; intros H Hok.
   - apply step_world; assumption.
   - apply step_poll; assumption.
   - apply step_handle, H.
@@ -997,6 +1064,7 @@ Proof.
   - apply step_tick, H.
   - apply step_restart, H.
   - apply step_crash_mid, H.
+  - apply step_crash_notify, H.
 Qed.
 
 (* every event of the trace is admissible in the state it meets *)
@@ -1088,7 +1156,7 @@ Qed.
 
 Lemma tight_step r s e : SInv (polls_of e + r) s -> Tight s -> e <> ECrashMid -> Tight (step cfg s e).
 Proof.
-  destruct e as [w|err| | |ferr errat| |]; cbn [polls_of Nat.add step]; intros H HT Hne.
+  destruct e as [w|err| | |ferr errat| | |ferr errat]; cbn [polls_of Nat.add step]; intros H HT Hne.
   - exact HT.
   - exact HT.
   - apply (tight_handle r); assumption.
@@ -1096,6 +1164,11 @@ Proof.
   - apply (tight_tick r); assumption.
   - unfold do_restart. destruct (det_ok_reload _ (i_det _ _ H)) as [_ He]. rewrite He. exact HT.
   - congruence.
+  - unfold do_crash_notify.
+    destruct (detect_pre (env_of (y_world s) ferr errat) (y_det s)) as [d1 res] eqn:Et. cbn [fst].
+    destruct (detect_pre_effect _ _ (i_det _ _ H) d1 res Et) as (Hd1 & Hsub & _).
+    unfold do_restart. cbn [set_det y_det y_store]. destruct (det_ok_reload _ Hd1) as [_ He]. rewrite He.
+    intros y Hy. cbn [y_det y_store] in *. apply HT, Hsub, Hy.
 Qed.
 
 (* the block has the hash the node's chain version has at that height (whether or not the head has reached it) *)
@@ -1176,7 +1249,7 @@ Qed.
 Lemma settled_step r s e : Settled (polls_of e + r) s -> ev_ok s e -> quiet_ev s e -> Settled r (step cfg s e).
 Proof.
   intros [H HS] Hok Hq. split; [apply step_preserves; assumption|].
-  destruct e as [w|err| | |ferr errat| |]; cbn [step]; unfold hash_canon, cur in *.
+  destruct e as [w|err| | |ferr errat| | |ferr errat]; cbn [step]; unfold hash_canon, cur in *.
   - cbn [quiet_ev] in Hq. unfold cur in Hq. intros p Hp. cbn [set_world y_world]. rewrite Hq. apply HS. exact Hp.
   - intros p Hp. unfold do_poll, all_blocks in *. cbn [y_store y_chan y_world] in *. rewrite map_app, app_assoc in Hp.
     apply in_app_or in Hp as [Hp|Hp]; [apply HS, Hp|].
@@ -1194,6 +1267,8 @@ Proof.
   - intros p Hp. unfold do_crash_mid in *. destruct (y_chan s) as [|c rest];
       unfold do_restart, all_blocks in *; cbn [set_det y_store y_chan y_world map] in *; rewrite app_nil_r in Hp;
       apply HS, in_or_app; left; exact Hp.
+  - intros p Hp. unfold do_crash_notify, do_restart, all_blocks in *. cbn [set_det y_store y_chan y_world map] in *.
+    rewrite app_nil_r in Hp. apply HS, in_or_app. left. exact Hp.
 Qed.
 
 Fixpoint quiet_trace (s : sys) (es : list event) : Prop :=
@@ -1320,7 +1395,7 @@ Definition pbv (v : version) (b : dblock) : pblock := {| p_num := b_num b; p_has
 Definition calm_ev (s : sys) (e : event) : Prop :=
   match e with
   | EWorld w => w_ver w = cur s /\ w_head (y_world s) <= w_head w
-  | ERestart | ECrashMid => False
+  | ERestart | ECrashMid | ECrashNotify _ _ => False
   | _ => True
   end.
 Fixpoint calm_trace (s : sys) (es : list event) : Prop :=
@@ -1373,7 +1448,7 @@ Proof.
     assert (Hstore_can : forall p, In p (y_store s) -> hash_canon s p).
     { intros p Hp. apply HS. unfold all_blocks. apply in_or_app. left. exact Hp. }
     fold (run cfg (step cfg s e) es).
-    destruct e as [w|err| | |ferr errat| |]; cbn [step] in *.
+    destruct e as [w|err| | |ferr errat| | |ferr errat]; cbn [step] in *.
     + (* world: same version, head not lower *)
       destruct Hc as [Hv Hh]. rewrite app_nil_r.
       assert (G1 : cur (set_world s w) = V) by (unfold cur in *; cbn [set_world y_world]; congruence).
@@ -1436,6 +1511,7 @@ Proof.
         by (unfold all_blocks in *; rewrite E1, E4; exact Hall).
       destruct (IH r s1 acc HS1 HT1 G1 G2 G3 G4 Hrest Hcrest) as (R1 & R2 & R3 & R4).
       split; [exact R1|]. split; [exact R2|]. split; [congruence|exact R4].
+    + destruct Hc.
     + destruct Hc.
     + destruct Hc.
 Qed.
